@@ -70,6 +70,14 @@ def check_api(case, ctx):
     menu = gen.common_menu(spec)
     dscheck.check_slices(ctx, ID, spec, ds, data, menu, case["axes"], extra={"clim_type": case["clim_type"]})
     dscheck.check_all_axis(ctx, ID, spec, ds, menu[:4], lambda: mat.make_data(spec, opts), extra={"clim_type": case["clim_type"]})
+    # the same requests on an object that has already served whole-array requests (what the driver does
+    # when it derives default thresholds): the climatology must not be applied twice
+    import verif.axis
+    data2 = mat.make_data(spec, opts)
+    for i in range(len(spec["inputs"])):
+        data2.get_scores(mat.vfield(("obs",)), i, verif.axis.All(), None)
+        data2.get_scores(mat.vfield(("fcst",)), i, verif.axis.All(), None)
+    dscheck.check_slices(ctx, ID + "/after-all-axis", spec, ds, data2, menu[:3], case["axes"][:2], extra={"clim_type": case["clim_type"]})
     # not-scored
     n_in = len(spec["inputs"])
     names = [d["name"] for d in spec["inputs"]]
